@@ -109,8 +109,20 @@ def convUser (st : St) (p : Str) : St × Except Reply User :=
     | .error .key => .error .notRegistered
     | .error _ => .error .generic)
 
+/-- `s.rsplit(c, 1)` of a string that contains `c`: what is before the last `c`, and what is after -/
+def splitLast (c : Char) (s : Str) : Str × Str :=
+  let r := s.reverse
+  (((r.dropWhile (fun x => x != c)).drop 1).reverse, (r.takeWhile (fun x => x != c)).reverse)
+
+/-- `ircutils.splitHostmask(p)` of a user hostmask: the host is what follows the last `@`, the user
+what follows the last `!` before that, the nick all the rest (`a!!b@c` has the nick `a!`) -/
+def splitHostmask (p : Str) : Str × Str × Str :=
+  let a := splitLast '@' p
+  let b := splitLast '!' a.1
+  (b.1, b.2, a.2)
+
 /-- `msg.nick` of a prefix `nick!user@host` -/
-def nickOf (p : Str) : Str := p.takeWhile (fun c => c != '!')
+def nickOf (p : Str) : Str := (splitHostmask p).1
 
 /-- `irc.state.nickToHostmask(n)` -/
 def nickLookup (nicks : List (Str × Str)) (n : Str) : Option Str := nicks.lookup (toLower n)
@@ -403,8 +415,9 @@ login of that account whose hostmask is the sender's (IRC case rules) to the sen
 hostmask — the one other place besides `identify` where a login entry is written. -/
 
 /-- `joinHostmask(newnick, user, host)` with `(_, user, host) = splitHostmask(p)`, for a user
-hostmask `p` (exactly one `!`) -/
-def newHost (p nn : Str) : Str := nn ++ p.dropWhile (fun c => c != '!')
+hostmask `p` -/
+def newHost (p nn : Str) : Str :=
+  nn ++ '!' :: (splitHostmask p).2.1 ++ '@' :: (splitHostmask p).2.2
 
 /-- `IrcState.doNick`: forget the old nick, remember the new one with the new hostmask -/
 def moveNick (nicks : List (Str × Str)) (p nn : Str) : List (Str × Str) :=
